@@ -164,7 +164,7 @@ type c07Obs struct {
 }
 
 func C07(rep *ev.Reporter, tier string) {
-	bud := NewBudget(55 * time.Second)
+	bud := NewBudget(150 * time.Second)
 	if tier == "thorough" {
 		bud = NewBudget(9 * time.Minute)
 	}
